@@ -644,11 +644,11 @@ def run(ctx: Any) -> None:
             p = cfg["pfx"] + rel
             body, bf = body_for(h, cfg, p)
             check_request(ctx, cfg, h, "POST", p, "bad", body, {"body_for": bf})
-    n_rand = ctx.budget(5, 160)
+    n_rand = ctx.budget(5, 60)
     for _ in range(n_rand):
         cfgs.append(random_cfg(ctx.rng))
     full = ctx.tier == "thorough" or ctx.deep
-    n_mut = ctx.budget(25, 300)
+    n_mut = ctx.budget(25, 150)
     for i, cfg in enumerate(cfgs):
         run_cfg(ctx, cfg, n_mut, full)
         if ctx.deep and ctx.tier != "thorough" and len(ctx.failures) >= 8 and i >= 3:
